@@ -525,6 +525,11 @@ func CheckVarNameOwners(run *core.Run, prog *load.Program) {
 			return
 		}
 		ast.Inspect(fd.Body, func(n ast.Node) bool {
+			// a function literal runs when it is called, not where it is written: when that is, is the
+			// business of the event-order rules (G-MOCK/qualifier-final, G-DATA/name-final)
+			if _, isLit := n.(*ast.FuncLit); isLit {
+				return false
+			}
 			if call, ok := n.(*ast.CallExpr); ok {
 				if cf, ok := typeutil.Callee(info, call).(*types.Func); ok && cf.Pkg() != nil && cf.Pkg().Path() == load.PkgTemplate {
 					switch load.FuncName(cf) {
@@ -542,6 +547,9 @@ func CheckVarNameOwners(run *core.Run, prog *load.Program) {
 			return
 		}
 		ast.Inspect(fd.Body, func(n ast.Node) bool {
+			if _, isLit := n.(*ast.FuncLit); isLit {
+				return false
+			}
 			if call, ok := n.(*ast.CallExpr); ok {
 				if cf, ok := typeutil.Callee(info, call).(*types.Func); ok && cf.Pkg() != nil && cf.Pkg().Path() == load.PkgRegistry && load.FuncName(cf) == "Var.TypeString" {
 					run.Check("G-VARNAME/readers", fn.Pkg().Name()+"."+load.FuncName(fn)+"→Var.TypeString", prog.Pos(call.Pos()), false, load.FuncName(fn)+" renders a type text while the data is still being built: the import it is qualified with can be re-aliased by a later registration")
